@@ -94,6 +94,8 @@ def c05_jobs(tier):
 
 def c17_jobs(tier):
     jobs = [sim("c17-hostile", "c17", require_counters=["hostile_requests_answered"]),
+            # inconsistent control messages (one delivery named twice with different seconds): no crash later
+            sim("c17-modify-grid", "c05", crash_property="C17", require_nontrivial=False),
             sim("c17-lifecycle", "c14r", require_counters=["rejected_creates", "odd_endpoints_accepted"], require_nontrivial=False),
             # the full hyper/h2 path: a status that cannot be delivered shows as a broken stream only there
             sim("c17-hostile-h2q", "c17", transport="h2", episodes=1200, require_counters=["hostile_requests_answered"])]
@@ -163,7 +165,9 @@ def c08_jobs(tier):
 def c09_jobs(tier):
     return [sim("c09-payloads", "c09", require_counters=["messages_delivered_3_times", "topic_recreations"]),
             conc("c09-conc-identity", "c01", params={"n": 1000 if tier == "quick" else 10000}, require_counters=["identity_deliveries_checked"]),
-            sim("c09-push", "c14", params={"maxlen": 1 if tier == "quick" else 2}, require_counters=["post_attributes_equal"], require_nontrivial=False)]
+            sim("c09-push", "c14", params={"maxlen": 1 if tier == "quick" else 2}, require_counters=["post_attributes_equal"], require_nontrivial=False),
+            # publishes that fail half-way (a subscription created and deleted at the same moment): ids stay unique
+            conc("c09-conc-churn", "c08", params={"n": 1000 if tier == "quick" else 10000}, require_nontrivial=False)]
 
 
 def c06_jobs(tier):
